@@ -499,8 +499,13 @@ def rule_r4(facts, col, bodies=None):
                 continue
             _, x, strict = thr
             px = peel(x, through_try=False)
-            if same_expr(need, px):
+            if same_expr(need, px) and strict:
                 col.ok("C09.R4", key, body.where(bb), "waits for exactly the tested threshold")
+            elif same_expr(need, px) and not strict:
+                col.bad("C09.R4", key, body.where(bb),
+                        "work() refuses to go on while `len(self.%s) <= %s` but says it waits for only that many: with exactly that amount "
+                        "available the wait is satisfied at once yet work() waits again - the multithreaded runner spins, the "
+                        "single-threaded one takes the stalled pass for quiescence and returns with data in flight" % (tgt, show(px)[:50]), {})
             elif need.k == "const" and px.k == "const" and need.v is not None and px.v is not None:
                 exact = px.v + (0 if strict else 1)
                 if need.v == exact:
@@ -542,6 +547,46 @@ def _structurally_unrelated(a, b):
     return visible(a) and visible(b)
 
 
+def rule_r6(facts, col, rule_id="C09.R6"):
+    """a block does not report 'waiting for output space' while it holds input it has consumed but not yet committed
+    downstream: on a path consume() -> WaitForStream(&self.<output>) with no produce()/push() after the consume - and none before
+    it in the same loop iteration - the samples sit in private state; when the upstream then ends, the block's eof() (inputs
+    drained) is true and the multithreaded runner retires it with that data undelivered"""
+    for body in facts.impl_bodies(BLOCK_TRAIT, "work"):
+        a = facts.adts.get(body.self_adt)
+        if not a or a["kind"] != "struct":
+            continue
+        outs = {f["name"] for f in a["variants"][0]["fields"] if "WriteStream" in f["ty"]["s"]}
+        cons = [bb for bb, t in body.calls_to(effects.CONSUME)]
+        prods = {bb for bb, t in body.calls_to(effects.PRODUCE)} | {bb for bb, t in body.calls_to(effects.PUSH)}
+        if not cons or not outs:
+            continue
+        for bb, verdict, e in effects.verdict_defs(body):
+            if verdict != "WaitForStream":
+                continue
+            tgt = wait_target(e)
+            if tgt not in outs:
+                continue
+            key = "%s:wait(%s)@%s" % (body.q, tgt, _guard_desc(body, bb))
+            bad = None
+            for c in cons:
+                t0 = body.term(c).get("t")
+                if t0 is None or t0 in prods or bb not in body.reachable(t0, avoid=prods):
+                    continue
+                comp = scc_of(body, c)
+                heads = [b for b in comp if any(p_ not in comp for p_ in body.pred[b])] if comp else [0]
+                if any(c in body.reachable(h, avoid=prods) for h in (heads or [0])):
+                    bad = c
+            if bad is not None:
+                col.bad(rule_id, key, body.where(bb),
+                        "work() can consume input (at %s) and then answer WaitForStream on its OUTPUT self.%s without having committed "
+                        "anything for it: the consumed samples sit in the block's private state, its inputs can then look drained, and "
+                        "the multithreaded runner retires the block (eof() true) with that data never delivered - the single-threaded "
+                        "run delivers it" % (body.where(bad), tgt), {})
+            else:
+                col.ok(rule_id, key, body.where(bb), "no consumed-but-uncommitted input when waiting for output space")
+
+
 def rule_r5(facts, col, bodies=None, rule_id="C09.R5"):
     """the amount waited for on one stream does not grow with what ANOTHER stream currently holds"""
     for body in (bodies if bodies is not None else facts.impl_bodies(BLOCK_TRAIT, "work")):
@@ -579,6 +624,8 @@ def run(ctx):
     rule_r2(facts, ctx)
     rule_r3(facts, ctx)
     rule_r4(facts, ctx)
+    rule_r6(facts, ctx)
+    ctx.floor("C09.R6", 25, "WaitForStream-on-output verdicts of blocks that consume")
     rule_r5(facts, ctx)
     ctx.floor("C09.R5", 60, "WaitForStream verdicts with a visible amount")
     ctx.floor("C09.R4", 30, "WaitForStream sites whose controlling test is a plain short-window test on the awaited stream")
